@@ -107,6 +107,19 @@ class Nested(Dom):
         self.alts = tuple(alts)
 
 
+class Array(Dom):
+    """A vector (ndim=1) or rectangular table (ndim=2) of unknown size whose cells are dynamically
+    typed (blank, logical, int, float, text, error value)."""
+
+    def __init__(self, ndim=1, min_len=1, max_len=None, kind='tuple',
+                 alts=('none', 'bool', 'int', 'float', 'str', 'err')):
+        self.ndim = ndim
+        self.min_len = min_len
+        self.max_len = max_len
+        self.kind = kind
+        self.alts = tuple(alts)
+
+
 class Abstract(Dom):
     """An abstract callable parameter with a contract of its own."""
 
@@ -187,6 +200,18 @@ def forall_range(lo, hi, pred):
     """pred(i) for all lo <= i < hi (natively: enumerated; symbolically: one
     fresh universally quantified index)."""
     return all(pred(i) for i in range(lo, hi))
+
+
+def same_call(target, *args):
+    """the result of calling the real function `target` ('module:function') on args.
+    (Symbolically: the result the code obtained from its own modular call, after proving
+    that the arguments agree.)"""
+    import importlib
+    modname, qual = target.split(':')
+    obj = importlib.import_module(modname)
+    for p in qual.split('.'):
+        obj = getattr(obj, p)
+    return obj(*args)
 
 
 def is_error(v):
